@@ -589,6 +589,11 @@ func (st *inlineState) desugarDefers(body *ast.BlockStmt) {
 		}
 		for i := len(active) - 1; i >= 0; i-- {
 			call := st.cloneNode(active[i].Call).(*ast.CallExpr)
+			// `defer func() { … }()` without parameters, results or returns: the body itself
+			if lit, ok := ast.Unparen(call.Fun).(*ast.FuncLit); ok && len(call.Args) == 0 && !hasReturn(lit.Body) {
+				out = append(out, &ast.BlockStmt{Lbrace: lit.Body.Lbrace, List: lit.Body.List, Rbrace: lit.Body.Rbrace})
+				continue
+			}
 			out = append(out, &ast.ExprStmt{X: call})
 		}
 		var res []ast.Expr
@@ -2014,6 +2019,35 @@ func (st *inlineState) normalise(body *ast.BlockStmt) {
 		}
 	}
 	lists = func(list []ast.Stmt) []ast.Stmt {
+		// a bare block that declares nothing at its top level is its statements
+		var flat []ast.Stmt
+		for _, s := range list {
+			b, ok := s.(*ast.BlockStmt)
+			if !ok {
+				flat = append(flat, s)
+				continue
+			}
+			declares := false
+			for _, bs := range b.List {
+				switch d := bs.(type) {
+				case *ast.DeclStmt:
+					declares = true
+				case *ast.AssignStmt:
+					if d.Tok == token.DEFINE {
+						declares = true
+					}
+				case *ast.LabeledStmt:
+					declares = true
+				}
+			}
+			if declares {
+				flat = append(flat, s)
+				continue
+			}
+			flat = append(flat, b.List...)
+			st.changed = true
+		}
+		list = flat
 		list = st.foldAddrNil(list)
 		list = st.sinkNilCheck(list)
 		list = st.foldConstruction(list)
@@ -2652,7 +2686,9 @@ func (st *inlineState) unrollLiteralRange(x *ast.RangeStmt, scope *ast.BlockStmt
 	default:
 		return nil
 	}
-	if _, isSlice := st.info.TypeOf(lit).Underlying().(*types.Slice); !isSlice || len(lit.Elts) == 0 || len(lit.Elts) > 24 {
+	_, isSlice := st.info.TypeOf(lit).Underlying().(*types.Slice)
+	_, isArray := st.info.TypeOf(lit).Underlying().(*types.Array)
+	if (!isSlice && !isArray) || len(lit.Elts) == 0 || len(lit.Elts) > 24 {
 		return nil
 	}
 	for _, e := range lit.Elts {
